@@ -195,6 +195,58 @@ func SkipRows(fn *ssa.Function) []string {
 			out = append(out, fmt.Sprintf("local %s declared at loop depth %d", shortType(al.Type().(*types.Pointer).Elem()), depth))
 		}
 	}
+	// what flows into every join: each input of every phi (loop headers included) with the effect that
+	// precedes the end of the block it arrives from. An assignment that disappears (`x = append(x, …)`
+	// turned into `_ = append(x, …)`) changes the value that arrives, not the effects.
+	{
+		lastEffIn := map[*ssa.BasicBlock]string{}
+		for _, b := range fn.Blocks {
+			for _, in := range b.Instrs {
+				if !isWork(in) {
+					continue
+				}
+				if call, ok := in.(*ssa.Call); ok {
+					if bi, isB := call.Call.Value.(*ssa.Builtin); isB {
+						lastEffIn[b] = bi.Name()
+					} else {
+						lastEffIn[b] = shortCallee(&call.Call)
+					}
+				} else {
+					lastEffIn[b] = strings.TrimPrefix(fmt.Sprintf("%T", in), "*ssa.")
+				}
+			}
+		}
+		seenJoin := map[string]bool{}
+		for _, b := range fn.Blocks {
+			for _, in := range b.Instrs {
+				ph, ok := in.(*ssa.Phi)
+				if !ok {
+					break
+				}
+				for i, e := range ph.Edges {
+					if _, nested := e.(*ssa.Phi); nested {
+						continue
+					}
+					if _, isConst := e.(*ssa.Const); isConst {
+						continue // constants carry no history; the branch rows list them
+					}
+					p := b.Preds[i]
+					after := "entry"
+					for x := p; x != nil; x = x.Idom() {
+						if le, ok := lastEffIn[x]; ok {
+							after = le
+							break
+						}
+					}
+					row := "joins: " + clip(argText(e), 120) + " after " + after
+					if !seenJoin[row] {
+						seenJoin[row] = true
+						out = append(out, row)
+					}
+				}
+			}
+		}
+	}
 	// constants and arithmetic: the string and numeric constants the function uses (other than 0, 1, -1 and
 	// text that only ends in a log line or an error message) and every arithmetic operation it performs
 	{
